@@ -106,6 +106,10 @@ func (lrw *limitedResponseWriter) WriteHeader(statusCode int) {
 		lrw.ResponseWriter.WriteHeader(statusCode)
 		return
 	}
+	// As with net/http, a superfluous later call does not replace the first status
+	if lrw.statusCode != 0 {
+		return
+	}
 	// Just record the status code, don't write it yet
 	lrw.statusCode = statusCode
 }
